@@ -465,6 +465,22 @@ fn check_fractional_index(ctx: &Ctx, sess: &mut Session, seq: &[RV], var: &str, 
                 Outcome::Ok(c) => c == &lo.canon() || c == &hi.canon(),
                 _ => false,
             };
+            // differential, no rounding mode assumed: a string / list is the same sequence that spreading
+            // exposes, so the same index expression selects the same element of the subject and of its spread
+            let prog2 = format!("[...{}]{}", var, &prog[var.len()..]);
+            let out2 = sess.run(&prog2);
+            ctx.count(1);
+            ctx.outcome("index-fractional-vs-spread");
+            if out.cmp_key() != out2.cmp_key() {
+                ctx.violation(Violation {
+                    kind: "index-fractional-vs-spread".into(),
+                    class: subject_class(subject_src),
+                    input: format!("{} ; {} vs {}", subject_src, prog, prog2),
+                    expected: format!("the same element from the subject and from its spread ({})", out2.cmp_key()),
+                    observed: out.cmp_key(),
+                    case: json!({"subject": subject_src, "program": prog, "program2": prog2}),
+                });
+            }
             if !ok {
                 ctx.violation(Violation {
                     kind: "index-fractional".into(),
@@ -524,6 +540,15 @@ pub fn run(ctx: &Ctx, replay: Option<&J>) -> i32 {
         let o0 = sess.run(&s);
         let o = sess.run(prog);
         println!("{} -> {:?}\n{} -> {:?}\nexpected: {}", s, o0.status(), prog, o, r["expected"]);
+        if let Some(p2) = r["case"]["program2"].as_str() {
+            let o2 = sess.run(p2);
+            println!("{} -> {:?}", p2, o2);
+            if o.cmp_key() != o2.cmp_key() {
+                println!("VIOLATION property=C14 replay=<replayed>");
+                return 1;
+            }
+            return 0;
+        }
         let exp = r["expected"].as_str().unwrap_or("");
         if o.cmp_key() != format!("ok:{}", exp) {
             println!("VIOLATION property=C14 replay=<replayed>");
